@@ -102,6 +102,9 @@ type genesis struct {
 	// lookup anchors of work reports against it
 	withAncestry bool
 	sharedAuthorizers bool
+	deepChain         int
+	longLived         bool
+	lateSlot          bool
 	alwaysAcc         bool
 	bigStatistics     bool
 	sharedBlob        []byte // solicited by every service of the genesis state
@@ -193,8 +196,37 @@ func mkGenesis(t *sim.Tape) *genesis {
 		}
 	}
 	st.Beta.History = types.BlocksHistory{}
+	// a node may be started from a snapshot of a chain that has lived long: a full recent-history list and an
+	// accumulation-output mountain range with many slots (after n blocks it has floor(log2 n)+1 of them, some empty)
+	if t.Prob(1, 3, "long_lived_chain_snapshot") {
+		nSlots := []int{3, 8, 9, 10, 17, 24, 33}[t.Choose(7, "belt_slots")]
+		for i := 0; i < nSlots; i++ {
+			if i == nSlots-1 || t.Prob(2, 3, "belt_slot_occupied") {
+				h := h256([]byte{byte(i), 0xBE}, t.Bytes(2, "belt_peak"))
+				st.Beta.Mmr.Peaks = append(st.Beta.Mmr.Peaks, &h)
+			} else {
+				st.Beta.Mmr.Peaks = append(st.Beta.Mmr.Peaks, nil)
+			}
+		}
+		nHist := []int{types.MaxBlocksHistory, types.MaxBlocksHistory, types.MaxBlocksHistory - 1, 3}[t.Choose(4, "history_prefill")]
+		for i := 0; i < nHist; i++ {
+			e := types.BlockInfo{HeaderHash: types.HeaderHash(h256([]byte{byte(i), 0xB1})), BeefyRoot: h256([]byte{byte(i), 0xB2}), StateRoot: types.StateRoot(h256([]byte{byte(i), 0xB3})), Reported: []types.ReportedWorkPackage{}}
+			for k := 0; k < t.Choose(3, "history_reported"); k++ {
+				e.Reported = append(e.Reported, types.ReportedWorkPackage{Hash: types.WorkReportHash(h256([]byte{byte(i), byte(k), 0xB4})), ExportsRoot: types.ExportsRoot(h256([]byte{byte(i), byte(k), 0xB5}))})
+			}
+			sort.Slice(e.Reported, func(a, b int) bool { return bytes.Compare(e.Reported[a].Hash[:], e.Reported[b].Hash[:]) < 0 })
+			st.Beta.History = append(st.Beta.History, e)
+		}
+		g.longLived = true
+	}
 	st.Rho = make(types.AvailabilityAssignments, types.CoresCount)
 	st.Tau = types.TimeSlot(t.Choose(3, "tau0") * (types.EpochLength - 1))
+	// the history may start late in the life of a chain: just below a multiple of the authorizer-queue length,
+	// beyond 2^31, close to the end of the 32-bit slot range (slot arithmetic, epoch numbers, queue indices)
+	if t.Prob(1, 3, "late_genesis_slot") {
+		st.Tau = types.TimeSlot([]uint32{75, 959, 1000007, 1 << 31, 1<<31 - 3, 1<<32 - 5000}[t.Choose(6, "tau0_late")])
+		g.lateSlot = true
+	}
 	st.Pi.ValsCurr = make(types.ValidatorsStatistics, types.ValidatorsCount)
 	st.Pi.ValsLast = make(types.ValidatorsStatistics, types.ValidatorsCount)
 	st.Pi.Cores = make(types.CoresStatistics, types.CoresCount)
@@ -444,6 +476,23 @@ func mkGenesis(t *sim.Tape) *genesis {
 				w := mkReport(fmt.Sprintf("queued-%d", i), i%types.CoresCount, live)
 				st.Vartheta[i] = append(st.Vartheta[i], types.ReadyRecord{Report: w, Dependencies: live})
 			}
+		}
+		// a DEEP chain waiting in the ready queue (more than one epoch's worth of links: each slot can hold one report per
+		// core and those may depend on each other): link k waits for link k-1, the first link waits for a package that
+		// is pending on a core and becomes available when enough assurances arrive - then the whole chain resolves in
+		// one block
+		if len(pendingPkgs) > 0 && t.Prob(1, 3, "snap_deep_chain") {
+			depth := []int{13, 14, 15, 24}[t.Choose(4, "snap_chain_depth")]
+			prev := pendingPkgs[0]
+			for k := 0; k < depth; k++ {
+				// the slots that are overwritten last: positions just behind the current slot index
+				_, m := epochOf(st.Tau)
+				pos := (int(m) + types.EpochLength - (k/2)%(types.EpochLength-2)) % types.EpochLength
+				w := mkReport(fmt.Sprintf("chain-%d", k), k%types.CoresCount, []types.WorkPackageHash{prev})
+				st.Vartheta[pos] = append(st.Vartheta[pos], types.ReadyRecord{Report: w, Dependencies: []types.WorkPackageHash{prev}})
+				prev = w.PackageSpec.Hash
+			}
+			g.deepChain = depth
 		}
 	}
 	kvs, err := merklization.StateEncoder(*st)
